@@ -978,10 +978,10 @@ func runC19Effects(c *ctx, baseline map[string]c19Fields, platNames []string, pl
 			effects = append(effects, e)
 		}
 	} else {
-		for i := 0; i < c.n(600, 40000); i++ {
+		for i := 0; i < c.n(600, 12000); i++ {
 			effects = append(effects, genEffect(r, "dev", platNames, platDoc))
 		}
-		for i := 0; i < c.n(120, 4000); i++ {
+		for i := 0; i < c.n(120, 1500); i++ {
 			e := genEffect(r, r.Pick([]string{"devfail", "devfailclose"}), platNames, platDoc)
 			e.user = append(e.user, opt1(r.Pick([]string{"WithOnOpen", "WithOnClose"}), "gfn:"+strconv.Itoa(r.Intn(4))))
 			if e.ctor == "network" {
@@ -989,13 +989,13 @@ func runC19Effects(c *ctx, baseline map[string]c19Fields, platNames []string, pl
 			}
 			effects = append(effects, e)
 		}
-		for i := 0; i < c.n(40, 1500) && ln != nil; i++ {
+		for i := 0; i < c.n(40, 600) && ln != nil; i++ {
 			effects = append(effects, genEffect(r, "telnet", platNames, platDoc))
 		}
-		for i := 0; i < c.n(150, 6000); i++ {
+		for i := 0; i < c.n(150, 3000); i++ {
 			effects = append(effects, genEffect(r, "system", platNames, platDoc))
 		}
-		for i := 0; i < c.n(60, 3000); i++ {
+		for i := 0; i < c.n(60, 800); i++ {
 			effects = append(effects, genEffect(r, "ncdev", platNames, platDoc))
 		}
 	}
